@@ -50,6 +50,12 @@ pub(crate) fn permutation_expressions<S: SelfEmulation>(
 ) -> Result<Vec<AssignedNative<S::F>>, Error> {
     let chunk_len = cs.degree() - 2;
 
+    // A circuit without copy constraints has no permutation argument (the
+    // off-circuit verifier contributes no expression in that case).
+    if permutation_evals.sets.is_empty() {
+        return Ok(vec![]);
+    }
+
     // Enforce only for the first set.
     // l_0(X) * (1 - z_0(X)) = 0
     let id_1 = {
